@@ -8,7 +8,7 @@
 From Coq Require Import List NArith ZArith Bool Arith.
 From Atlas Require Import Base.Bytes Base.Stutter Exec.ExecModel Exec.ExecProofs Exec.StepProofs Exec.PendingModel Exec.PendingProofs
   Exec.RunModel Exec.TxModel Exec.TxProofs Exec.RunProofs Exec.CrashProofs Exec.DryModel Exec.DryProofs
-  Exec.FkModel Exec.FkProofs Exec.FkRerunProofs.
+  Exec.FkModel Exec.FkProofs Exec.FkRerunProofs Exec.DryFlagsProofs Exec.DryFlagsModel.
 Import ListNotations.
 
 Section C13.
@@ -458,3 +458,86 @@ Proof.
   split; [intros f [<-|[<-|[]]]; discriminate|].
   split; [apply Bd_empty|apply LK_empty].
 Qed.
+
+(** ** Round 5: `migrate apply --dry-run` x --baseline x --allow-dirty x count -- the flag table.
+    For every directory (failing statements, directives, checkpoints), tx-mode, count and order:
+    (1) a revision history exists: NOTHING changes, whatever --baseline / --allow-dirty / count say;
+    (2) no history, no --baseline: nothing changes (but the creation of the table); a dirty database
+        without --allow-dirty is refused (NotClean), an empty directory is "nothing pending";
+    (3) no history, --baseline v (dirtiness is then irrelevant; --allow-dirty TOGETHER with --baseline
+        is refused by NewExecutor before Pending runs: C13_dry_run_flags_exclusive): v not a
+        migration file of the directory -> refused (BaselineNotFound), nothing changes; otherwise
+        EXACTLY the baseline row of v is written (the open finding C13-dry-run-writes-baseline),
+        whatever the rest of the run announces; v the last file -> "nothing pending". *)
+Section C13flags.
+Variable hash : Type.
+Variable hash_eqb : hash -> hash -> bool.
+Variable HS : bytes -> hash.
+
+Theorem C13_dry_run_flags :
+  forall global n cf dir (d : cdb hash),
+  let revs := read_revisions hash (d_tbl (cd_db d)) in
+  let all := map tf_file dir in
+  (revs <> [] -> snd (migrate_apply hash hash_eqb HS true global n cf dir d) = mkCdb true (cd_db d)) /\
+  (revs = [] -> c_baseline cf = None ->
+     snd (migrate_apply hash hash_eqb HS true global n cf dir d) = mkCdb true (cd_db d) /\
+     (c_dirty cf = true -> c_allow_dirty cf = false ->
+        fst (migrate_apply hash hash_eqb HS true global n cf dir d) = APend PNotClean) /\
+     (c_dirty cf && negb (c_allow_dirty cf) = false -> files_from_last_checkpoint all = [] ->
+        fst (migrate_apply hash hash_eqb HS true global n cf dir d) = APend PNoPending)) /\
+  (forall bv, revs = [] -> c_baseline cf = Some bv ->
+     match files_last_index (fun f => bytes_eqb (f_version f) bv) (skip_checkpoints all) with
+     | None => migrate_apply hash hash_eqb HS true global n cf dir d = (APend PBaselineNotFound, mkCdb true (cd_db d))
+     | Some b =>
+         snd (migrate_apply hash hash_eqb HS true global n cf dir d) =
+           mkCdb true (mkDb (d_journal (cd_db d)) (tbl_put (d_tbl (cd_db d)) (baseline_rev bv))) /\
+         (skipn (S b) (skip_checkpoints all) = [] ->
+            fst (migrate_apply hash hash_eqb HS true global n cf dir d) = APend PNoPending)
+     end).
+Proof. exact (dry_run_flags hash hash_eqb HS). Qed.
+
+(** The count argument never influences the state a dry run leaves, and a count that is not
+    smaller than the number of pending files is the same command as no count. *)
+Theorem C13_dry_run_count :
+  forall global n cf dir (d : cdb hash),
+  snd (migrate_apply hash hash_eqb HS true global n cf dir d) = snd (migrate_apply hash hash_eqb HS true global 0 cf dir d) /\
+  (forall ps, fst (pending cf (map tf_file dir) (read_revisions hash (d_tbl (cd_db d)))) = PFiles ps ->
+     length ps <= n ->
+     migrate_apply hash hash_eqb HS true global n cf dir d = migrate_apply hash hash_eqb HS true global 0 cf dir d).
+Proof. exact (dry_run_count hash hash_eqb HS). Qed.
+
+(** The command in front of [migrate_apply]: --baseline together with --allow-dirty is refused
+    (after mrrw.Migrate: the table exists, nothing else happens -- with or without --dry-run);
+    every other flag combination IS [migrate_apply]. *)
+Theorem C13_dry_run_flags_exclusive :
+  forall dry global n cf dir (d : cdb hash),
+  (forall bv, c_baseline cf = Some bv -> c_allow_dirty cf = true ->
+     migrate_apply_cmd hash hash_eqb HS dry global n cf dir d = (CmdFlagsExclusive, mkCdb true (cd_db d))) /\
+  (c_baseline cf = None \/ c_allow_dirty cf = false ->
+     migrate_apply_cmd hash hash_eqb HS dry global n cf dir d =
+     (Cmd (fst (migrate_apply hash hash_eqb HS dry global n cf dir d)),
+      snd (migrate_apply hash hash_eqb HS dry global n cf dir d))).
+Proof.
+  intros dry global n cf dir d. unfold migrate_apply_cmd, flags_exclusive. split.
+  - intros bv Hb Ha. rewrite Hb, Ha. reflexivity.
+  - intros [Hb|Ha]; [rewrite Hb|rewrite Ha, andb_false_r]; cbn;
+      destruct (migrate_apply hash hash_eqb HS dry global n cf dir d); reflexivity.
+Qed.
+
+End C13flags.
+Print Assumptions C13_dry_run_flags_exclusive.
+Print Assumptions C13_dry_run_flags.
+Print Assumptions C13_dry_run_count.
+
+Example C13_dry_run_flags_nonvacuous :
+  let fresh := mkCdb false (mkDb [] []) : cdb bytes in
+  let hist := mkCdb true (mkDb [s 1; s 2] [mkRev [49%N] 2 2 [] false 2%N]) : cdb bytes in
+  let run cf d := migrate_apply bytes bytes_eqb (fun b => b) true TxFile 0 cf ex_dir d in
+  (* --baseline 1 on a fresh database: the row is written; with a history: ignored *)
+  map (@r_version bytes) (d_tbl (cd_db (snd (run (mkCfg Linear (Some [49%N]) false true) fresh)))) = [[49%N]] /\
+  snd (run (mkCfg Linear (Some [49%N]) false true) hist) = hist /\
+  (* unknown baseline version; dirty without --allow-dirty *)
+  fst (run (mkCfg Linear (Some [57%N]) false true) fresh) = APend PBaselineNotFound /\
+  fst (run (mkCfg Linear None false true) fresh) = APend PNotClean /\
+  snd (run (mkCfg Linear None false true) hist) = hist.
+Proof. vm_compute. repeat split; reflexivity. Qed.
